@@ -256,6 +256,8 @@ class EPModel(KModel):
             return Obj('zip', parts=a0.d['parts'] + [deref_all(args[1])])
         if last == 'fold_while' and isinstance(a0, Obj) and a0.kind == 'zip':
             return self.fold_while(a0, args[1], args[2], e)
+        if last == 'fold' and isinstance(a0, Obj) and a0.kind == 'zip':
+            return self.zip_fold(a0, args[1], args[2], e)
         if last in ('all', 'any') and isinstance(a0, Obj) and a0.kind == 'zip':
             return self.zip_all(a0, args[1], last == 'all', e)
         if last == 'into_inner' and isinstance(a0, Enum) and a0.adt == 'ndarray::FoldWhile':
@@ -680,6 +682,31 @@ class EPModel(KModel):
                 break
             acc = r.fields['0']
         return r
+
+    def zip_fold(self, z, init, clo, e):
+        """Zip::fold: the step runs for every element, whatever it returns (no early exit): two generic elements"""
+        parts = z.d['parts']
+        self.zips.append([repr(p) for p in parts])
+        args = []
+        for p in parts:
+            if isinstance(p, Obj) and p.kind == 'ndarr' and p.d['role'] == 'query':
+                args.append(Ref(ValPlace(Num(Rat.atom('%s[e]' % p.d['name'])))))
+            elif isinstance(p, Obj) and p.kind == 'axis_iter_mut':
+                v = p.d['of']
+                args.append(Obj('view', root=v.d['root'], rootkind=v.d['rootkind'], shape=v.d['shape'].drop_first(e), lead='axis0[e]',
+                                ones=Rat.const(0)))
+            else:
+                raise Unsupported("Zip operand %r in a batch fold" % (p,), e)
+        acc = init
+        for tag in ('e', 'e2'):
+            self.cur_elem = tag
+            self.loop_elems += 1
+            try:
+                acc = self.interp.apply(clo, [acc] + args, e)
+            finally:
+                self.cur_elem = None
+            self.events.append(('fold_step', tag, 'Continue'))
+        return acc
 
     def zip_all(self, z, clo, is_all, e):
         """Zip::all / Zip::any: the predicate runs element by element until it answers false (all) / true (any): two generic elements"""
